@@ -101,6 +101,10 @@ func init() {
 	ack.profile, ack.pAck, ack.pMs, ack.pMinute = "ack-core", 250, 20, 0
 	ack.timeouts = []uint16{0, 1, 2, 3, 5}
 	ack.noMonitor = true // the reference model does not cover grants that wait for an acknowledgement (C11's harness does)
+	// no text connections: finding F8 (a grant's reply built from a command object that a re-lock or unlock
+	// by another request has meanwhile recycled) leaves a text connection without any reply for good, and
+	// without the monitor such a run cannot be told from a lost reply (the core kinds attribute it)
+	ack.noText = true
 	addKind("ackcore", ack, map[string]int{"C03": 3})
 
 	// hugeterms: timeouts and expiries of hours, days and weeks (seconds up to 65535, minutes up to
